@@ -169,6 +169,12 @@ def parseStmt : Char → Option Stmt
   | 'r' => some { kind := .rowq, fails := false, prop := true }    -- QueryRow finds no row: ErrNotFound returned
   | 'o' => some { kind := .rowq, fails := false, prop := false }   -- … ignored
   | 'w' => some { kind := .rowq, fails := true, prop := true }     -- QueryRow faulted by the driver, returned
+  | 'b' => some { kind := .exec, fails := true, prop := true }     -- exec fault wrapping driver.ErrBadConn, returned
+  | 'B' => some { kind := .query, fails := true, prop := true }    -- query fault wrapping driver.ErrBadConn, returned
+  | 'k' => some { kind := .exec, fails := true, prop := true }     -- the driver refuses the Prepare inside the tx, returned
+  | 'a' => some { kind := .query, fails := false, prop := true }   -- QueryRowsPartial[Ctx], checked
+  | 'A' => some { kind := .rowq, fails := false, prop := true }    -- QueryRowPartial[Ctx] finds no row, returned
+  | 'd' => some { kind := .nest, fails := true, prop := false }    -- RawDB() of a connection made from the session: refused, ignored
   | 't' => some { kind := .exec, fails := false, prop := true }    -- exec through NewSessionFromTx(raw tx), checked
   | 'T' => some { kind := .nest, fails := true, prop := true }     -- nested Transact over NewSessionFromTx(raw tx)
   | _ => none
@@ -179,6 +185,8 @@ def parseStmts (s : String) : Option (List Stmt) :=
 def parseEnd (s : String) : Option End :=
   match s with
   | "ok" => some .ok | "panic" => some .panic | "panicerr" => some .panic | "panicnil" => some .panic
+  | "panicint" => some .panic | "panicstruct" => some .panic | "panictnil" => some .panic   -- neither error nor string
+  | "err:tnil" => some (.err .plain)     -- a typed-nil pointer in a non-nil error interface: an error like any other
   | "goexit" => some .ok | "panicnil1" => some .ok      -- outside the quantifier: handled apart (`Op.oq`)
   | _ =>
     match s.splitOn ":" with
@@ -196,6 +204,8 @@ def parseEndAns (s : String) : Option (Bool × Bool × Cls × String) :=
   | ["ok"] => some (true, false, .plain, "-")
   | ["fail"] => some (false, false, .plain, "-")
   | ["panic"] => some (false, true, .plain, "-")
+  | ["fail", "badconn", form] =>   -- driver.ErrBadConn: an ordinary, not acceptable error inside a transaction
+    if ["i", "w", "b"].contains form then some (false, false, .plain, "badconn-" ++ form) else none
   | ["fail", c, form] =>
     if ["i", "w", "b"].contains form then (parseCls c).bind fun c => if c == .plain then none else some (false, false, c, form)
     else none
@@ -223,6 +233,8 @@ structure Op where
   inst : Nat := 0          -- which SqlConn instance of the section the call goes to
   cform : String := "-"    -- form of the Commit / Rollback error value (coverage only)
   rform : String := "-"
+  endKind : String := "ok"  -- the `end=` token (coverage: which kind of value the body panicked with / returned)
+  letters : String := ""
   deriving Repr
 
 def parseOp (op : List String) : Option Op :=
@@ -251,7 +263,8 @@ def parseOp (op : List String) : Option Op :=
            f := { begin := bg, commit := cm.1, rollback := rb.1, badConn := bad, commitPanics := cm.2.1,
                   rollbackPanics := rb.2.1, commitCls := cm.2.2.1, rollbackCls := rb.2.2.1 },
            b := { stmts := st, fin := en, cancelAt := cn.1, deadline := cn.2 },
-           brkAllow := brk, oq := oq, inst := inst, cform := cm.2.2.2, rform := rb.2.2.2 }
+           brkAllow := brk, oq := oq, inst := inst, cform := cm.2.2.2, rform := rb.2.2.2,
+           endKind := (← kv? rest "end"), letters := (← kv? rest "stmts") }
   | _ => none
 
 def isBreakerReject (r : Result) : Bool :=
@@ -298,6 +311,17 @@ def runSection (r : Report) (s : Section) : Report := Id.run do
         r := r.mismatch s.idx l.idx "nested-transact-refused" impl
         r := r.violation s.idx l.idx s!"clauses=[nested-transaction-refused] impl=[{impl}] op=[{joinSp l.op}]"
         continue
+      -- RawDB() of a connection made from the transaction's session must be refused (errNoRawDBFromTx)
+      if (((kvStr l.obs "body" "") ++ (kvStr l.obs "ret" "")).splitOn "rawdbleak").length > 1 then
+        r := r.mismatch s.idx l.idx "raw-db-refused" impl
+        r := r.violation s.idx l.idx s!"clauses=[raw-db-refused] impl=[{impl}] op=[{joinSp l.op}]"
+        continue
+      -- a statement of the body that reached a connection with no transaction open on it (the harness driver logs
+      -- O<i>) did not run inside the transaction
+      if ((kvStr l.obs "log" "").splitOn ",").any (fun t => t.startsWith "O") then
+        r := r.mismatch s.idx l.idx "statements-inside-the-transaction" impl
+        r := r.violation s.idx l.idx s!"clauses=[statement-outside-transaction] impl=[{impl}] op=[{joinSp l.op}]"
+        continue
       match parseObs l.obs with
       | none =>
         -- e.g. the call panicked out of Transact: not explainable by the model, and a violation of
@@ -318,7 +342,13 @@ def runSection (r : Report) (s : Section) : Report := Id.run do
         let coreWant := if via == "onconn" || !(!env.ctxDone && env.brkAllow) || m.escaped then "-"
                         else renderRet (transactFn env.connOk op.f op.b).ret
         let implCore := if coreObs == "?" then impl else impl ++ " core=" ++ coreObs
-        let implMain := joinSp (l.obs.filter fun t => !t.startsWith "core=")
+        let implMain := joinSp (l.obs.filter fun t => !t.startsWith "core=" && !t.startsWith "cv=")
+        -- the context the body is handed: the caller's (TransactCtx / transactOnConn: it carries the caller's
+        -- value), none through Transact
+        let cvObs := kvStr l.obs "cv" "?"
+        let cvWant := if obs.runs == 0 || op.api == "plain" then "-" else "1"
+        if cvObs != "?" && cvObs != cvWant then r := r.mismatch s.idx l.idx s!"cv={cvWant}" impl
+        if cvObs != "?" then r := r.addCover s!"body-context-cv-{cvObs}"
         let want := m.render markSeen
         if want ≠ implMain then r := r.mismatch s.idx l.idx want impl
         else if coreObs != "?" && coreObs != coreWant then r := r.mismatch s.idx l.idx (want ++ " core=" ++ coreWant) impl
@@ -327,7 +357,8 @@ def runSection (r : Report) (s : Section) : Report := Id.run do
         let coreBad := coreObs != "?" && coreObs != "-" && !obs.escaped && coreObs != renderRet obs.ret
         let bad := Spec.violated obs ++
           (if markSeen && !Spec.breakerTold env.userAccept obs then ["breaker-told"] else []) ++
-          (if coreBad then ["wrapper-returns-core-error"] else [])
+          (if coreBad then ["wrapper-returns-core-error"] else []) ++
+          (if cvObs == "0" then ["body-gets-callers-context"] else [])
         if !bad.isEmpty then
           r := r.violation s.idx l.idx s!"clauses=[{",".intercalate bad}] impl=[{impl}] op=[{joinSp l.op}]"
         -- coverage
@@ -343,6 +374,20 @@ def runSection (r : Report) (s : Section) : Report := Id.run do
           | some e => renderSrcs (e.is.map fun | .stmt _ => .stmt 0 | x => x) ++ "/" ++
                       renderSrcs (e.says.map fun | .stmt _ => .stmt 0 | x => x)))
         r := r.addCover ("mark-" ++ renderMark m.mark)
+        -- round 5: kinds of values a body ends with, ErrBadConn inside the transaction, more session methods
+        if m.runs == 1 then
+          match m.body with
+          | .panic => r := r.addCover s!"body-panic-kind-{op.endKind}-rollback-{if op.f.rollbackOk then "ok" else "fails"}"
+          | .err _ => if op.endKind == "err:tnil" then r := r.addCover "body-error-typed-nil-pointer"
+          | _ => pure ()
+        for (c, name) in [('b', "stmt-exec-fault-ErrBadConn"), ('B', "stmt-query-fault-ErrBadConn"),
+            ('k', "stmt-prepare-refused-in-tx"), ('a', "stmt-QueryRowsPartial"), ('A', "stmt-QueryRowPartial-norows"),
+            ('d', "stmt-RawDB-of-session-conn-refused")] do
+          if op.letters.toList.contains c then r := r.addCover name
+        if m.runs == 1 && op.letters.toList.any (fun c => c == 'b' || c == 'B') &&
+            (match m.body with | .err e => (match e.is with | [.stmt _] => true | _ => false) | _ => false) then
+          r := r.addCover "body-returned-ErrBadConn-no-second-transaction"
+        if via == "cached" then r := r.addCover ("cached-constructor-" ++ kvStr s.cfg "cons" "cache")
         -- round 4: the acceptable-error classes at every place an error can come from
         r := r.addCover ("accept-" ++ (if op.inst == 1 then accept1 else accept))
         if op.inst == 1 then r := r.addCover "second-instance"
